@@ -714,6 +714,10 @@ class Povm(QOperation):
                 # principal square root of the Hermitian element by its spectral decomposition
                 # (scipy.linalg.sqrtm is unreliable, up to nan, for singular matrices)
                 eigenvals, eigenvecs = np.linalg.eigh(matrix)
+                # rounding noise around a zero eigenvalue must not become sqrt(noise)
+                eigenvals = np.where(
+                    np.abs(eigenvals) < Settings.get_atol(), 0.0, eigenvals
+                )
                 sqrt_matrix = (
                     eigenvecs * np.emath.sqrt(eigenvals)
                 ) @ eigenvecs.conjugate().T
